@@ -142,7 +142,10 @@ def str_values(name):
         return ["{S}/od_f", "{S}/od_e", "{S}/od_c"]
     if name == "output_file":
         return ["{S}/of_f.tar.gz", "{S}/of_e.tar.gz", "{S}/of_c.tar.gz"]
-    return ["f." + name, "e." + name, "c." + name]
+    # the file value carries a literal '%' (e.g. a URL-encoded password in a proxy URL): the file is documented as
+    # raw key=value text, so an interpolating parser silently dropping the file is a precedence violation
+    # (added after a seeded change showed the alphabet had no such character)
+    return ["f%40." + name, "e." + name, "c." + name]
 
 
 def background(name):
